@@ -34,7 +34,7 @@ GCompact == Compact /\ Log([a |-> "compact"])
 
 \* --- statements
 NoPred == [k |-> "", op |-> "=", v |-> ""]
-PredBag == << NoPred, NoPred, NoPred, NoPred,
+PredBag == << NoPred, NoPred, NoPred, NoPred, NoPred, NoPred, NoPred,
               [k |-> "t1", op |-> "=", v |-> "a"], [k |-> "t1", op |-> "=", v |-> "b"],
               [k |-> "t1", op |-> "!=", v |-> "a"], [k |-> "t1", op |-> "=", v |-> ""],
               [k |-> "t2", op |-> "=", v |-> "x"], [k |-> "t2", op |-> "!=", v |-> "x"] >>
@@ -48,10 +48,12 @@ FillFor(fld, iv) == IF iv = 0 THEN "none"
                     ELSE PickSeq(<<"none", "null", "number", "previous", "previous", "linear", "linear">>)
 
 GQuery(st0) ==
-  LET st == IF Amb(st0, data) THEN [st0 EXCEPT !.limit = 0, !.offrows = 0] ELSE st0
+  LET st == IF Amb(st0, data) THEN [st0 EXCEPT !.limit = 0, !.offrows = 0] ELSE st0   \* see Amb
   IN /\ WellFormed(st)
      /\ UNCHANGED vars
-     /\ Log([a |-> "query", st |-> st, res |-> Eval(st, data), nsel |-> Cardinality(Sel(st, data))])
+     /\ Log([a |-> "query", st |-> st, res |-> Eval(st, data), nsel |-> Cardinality(Sel(st, data)),
+              \* what the recorded deviation "SLIMIT per shard" gives with shards of 3 units (1 h)
+              dev3 |-> IF st.slimit > 0 THEN EvalSLimitPerShard(st, data, 3) ELSE <<>>])
 
 RandQuery ==
   \E fn \in {PickSeq(FnBag)} :
@@ -65,8 +67,9 @@ RandQuery ==
   \E st0 \in {[fn |-> fn, field |-> fld, lo |-> lo, hi |-> hi2, pred |-> PickSeq(PredBag),
           interval |-> iv, offset |-> off, group |-> PickSeq(GroupBag), fill |-> FillFor(fld, iv),
           desc |-> PickSeq(<<FALSE, FALSE, TRUE>>),
-          limit |-> PickSeq(<<0, 0, 0, 1, 2, 3>>), offrows |-> PickSeq(<<0, 0, 0, 1, 2>>),
-          slimit |-> PickSeq(<<0, 0, 0, 0, 1, 2>>), soffset |-> PickSeq(<<0, 0, 0, 0, 0, 1>>)]} : GQuery(st0)
+          limit |-> PickSeq(<<0, 0, 0, 1, 2, 3>>), offrows |-> PickSeq(<<0, 0, 1, 2>>),
+          slimit |-> PickSeq(<<0, 0, 0, 0, 0, 0, 1, 2>>), soffset |-> PickSeq(<<0, 0, 0, 0, 0, 1>>)]} :
+  GQuery([st0 EXCEPT !.soffset = IF st0.slimit = 0 THEN 0 ELSE @, !.offrows = IF st0.limit = 0 THEN 0 ELSE @])
 
 Kinds == << "w", "w", "w", "rw", "snap", "snap", "compact", "q", "q", "q", "q", "q" >>
 
@@ -77,7 +80,8 @@ GStep(kind) ==
     [] kind = "compact"        -> IF Len(files) >= 2 THEN GCompact ELSE IF cache # {} THEN GSnapshot ELSE RandQuery
     [] OTHER                   -> RandQuery
 
-GNext == Len(hist) < GenLen /\ \E kind \in {PickSeq(Kinds)} : GStep(kind)
+\* the first steps are writes, so that most statements see some data
+GNext == Len(hist) < GenLen /\ \E kind \in {IF Len(hist) < 3 THEN "w" ELSE PickSeq(Kinds)} : GStep(kind)
 GInit == Init /\ hist = <<>>
 GSpec == GInit /\ [][GNext]_gvars
 
